@@ -963,6 +963,13 @@ var menu = map[string][]menuEntry{
 		ent("VAT", "", "21.0%", "").with("", map[string]string{"es-tbai-product": "goods"}),
 		ent("VAT", "exempt", "", "").with("", map[string]string{"es-tbai-exemption": "E1", "es-tbai-product": "services"}),
 		ent("VAT", "", "21.0%", "5.2%").with("", map[string]string{"es-tbai-product": "services", "es-tbai-exemption": "E2"}),
+		// percentages written with different precision that round to each other: different groups
+		ent("VAT", "", "8%", ""),
+		ent("VAT", "", "8.1%", ""),
+		ent("VAT", "", "8.14%", ""),
+		ent("VAT", "", "21.4%", ""),
+		ent("VAT", "", "8%", "5%"),
+		ent("VAT", "", "8%", "5.2%"),
 		ent("VAT", "", "23.0%", "").with("PT", nil),
 		ent("VAT", "", "21.0%", "").with("PT", nil),
 		ent("VAT", "", "20.0%", "").with("FR", nil),
